@@ -252,10 +252,17 @@ func runReq(raw json.RawMessage, seed int64, rec *Rec) {
 		body = env(0, encodeBV(codec, big))
 	case "cnoenc":
 		body = env(1, refcodec.Gzip(encodeBV(codec, m1)))
+	case "flagged", "flagged0":
+		flags := []byte{0x02, 0x80, 0x04, 0x03, 0x81}
+		var payload []byte
+		if s.Body == "flagged" {
+			payload = []byte("{}")
+		}
+		body = env(flags[rng.Intn(len(flags))], payload)
 	case "msgthenbad":
 		body = append(env(0, encodeBV(codec, m1)), env(0, bad)...)
 	}
-	if s.Enc == "gzip" && len(body) > 0 && s.Body != "garbage" && s.Body != "truncated" && s.Body != "cnoenc" {
+	if s.Enc == "gzip" && len(body) > 0 && s.Body != "garbage" && s.Body != "truncated" && s.Body != "cnoenc" && s.Body != "flagged" && s.Body != "flagged0" {
 		// a correctly compressed variant of the same body
 		if rawBody {
 			body = refcodec.Gzip(body)
